@@ -244,7 +244,8 @@ func newCCStore(kind, dir string) (ccStore, error) {
 		}
 		return &ccRW{bs, p}, nil
 	case "storage":
-		m := &memFile{}
+		// slow writes: a lookup by another goroutine may fall between a Put's bookkeeping and its bytes landing
+		m := &memFile{slow: true}
 		sc, err := storage.NewReadableWritable(m, roots)
 		if err != nil {
 			return nil, err
